@@ -255,6 +255,64 @@ def rule_repr_err(ctx, cd):
                       ("delimiter header beyond the remaining data", r"raise _des_\.FormatError\(f?'[^']*[Dd]elimiter")):
         ok = re.search(pat, txt) is not None
         ctx.ob(R, tp.rel, f"py: {what} raises FormatError", ok, "")
+    # python, per path: the length prefix is read, refused when (and only when) above the capacity, then used
+    k = 0
+    for p in cd.paths("py", "des", "_deserialize_variable_length_array"):
+        k += 1
+        text = cd.text("py", p)
+        label = " & ".join(("" if pol else "not ") + c for c, pol in p.conds if "element_type" in c)[-70:] or "general"
+        rd = None
+        for n_, e_ in p.ph:
+            e_s = e_ if isinstance(e_, str) else xs(e_)
+            mm = re.match(r"\(?_deserialize_integer\(t\.length_field_type, (\w+), ", e_s)
+            if mm and n_ in text:
+                rd = (n_, p.name_of(mm.group(1)))
+                break
+        cap = p.name_of("t.capacity")
+        ok = okc = False
+        why = "the length prefix is not read through _deserialize_integer(t.length_field_type, <length>, ..)"
+        if rd is not None and rd[1] is not None and cap is not None:
+            L = rd[1]
+            g = re.search(rf"if (?:{L} > {cap}|{cap} < {L}|not \(?{L} <= {cap}\)?|not \(?{cap} >= {L}\)?) ?: raise _des_\.FormatError\(", text)
+            anyg = re.search(rf"if [^:]*{L}[^:]*: raise _des_\.FormatError\(", text)
+            uses = [m.start() for m in re.finditer(rf"(?<!\{{){L}(?!\}})", text)]
+            okc = g is not None
+            first_read = text.find(rd[0])
+            if anyg is not None:
+                later = [u for u in uses if u > text.find(")", anyg.end())]
+                between = [u for u in uses if first_read < u < anyg.start() and not re.match(rf"{L} >= 0", text[u:u + len(L) + 5])]
+                ok = first_read != -1 and first_read < anyg.start() and bool(later) and not between
+                why = "the length is used (bulk fetch / allocation / loop bound) before it has been validated" if not ok else ""
+            else:
+                why = "no `if <length> ..: raise _des_.FormatError` on this path"
+        ctx.ob(R, tp.rel, f"py: array length is read, then refused if above capacity, before it is used [{label}]", ok, why)
+        ctx.ob(R, tp.rel, f"py: the refusal is exactly `length > t.capacity` [{label}]", okc,
+               "" if okc else "another comparison: a full array is refused, or an overlong one accepted")
+    ctx.floor(R + ":py-vla", k, 1)
+    # python: delimiter header read -> refused when it claims more than what is left -> fork of exactly that many bytes -> skip
+    k = 0
+    for p in cd.paths("py", "des", "_deserialize_any"):
+        if ("(t is DelimitedType)", True) not in p.conds:
+            continue
+        k += 1
+        text = cd.text("py", p)
+        hd = re.search(r"(\w+) = _des_\.fetch_aligned_u32\(\)", text)
+        ok1 = ok2 = ok3 = False
+        if hd:
+            v = hd.group(1)
+            bits = rf"(?:{v} \* 8|8 \* {v})"
+            g = re.search(rf"if (?:{bits} > _des_\.remaining_bit_length|_des_\.remaining_bit_length < {bits}) ?: raise _des_\.FormatError\(", text)
+            fk = re.search(rf"(\w+) = _des_\.fork_bytes\({v}\)", text)
+            sk = re.search(rf"_des_\.skip_bits\({bits}\)", text)
+            ne = re.search(r"\._deserialize_\((\w+)\)", text)
+            ok1 = g is not None and fk is not None and hd.start() < g.start() < fk.start()
+            ok2 = fk is not None and ne is not None and ne.group(1) == fk.group(1) and fk.start() < ne.start()
+            ok3 = sk is not None and g is not None and sk.start() > g.start()
+        ctx.ob(R, tp.rel, "py: delimiter header is read, refused exactly when header * 8 > remaining bits, then the fork is taken", ok1,
+               "" if ok1 else "the comparison is not `header * 8 > _des_.remaining_bit_length` in front of fork_bytes(header)")
+        ctx.ob(R, tp.rel, "py: the nested object is decoded from the fork of exactly the announced bytes", ok2, "")
+        ctx.ob(R, tp.rel, "py: the outer cursor skips the announced bytes (header * 8 bits)", ok3, "")
+    ctx.floor(R + ":py-delimited", k, 1)
 
 
 def _size_var_of_call(lang, text):
